@@ -42,11 +42,24 @@ def plan(tier, seed):
 
 
 def gen_case(rnd):
+    base = BASE
     n = rnd.randint(2, 6)
     comps = rnd.sample(COMPS, n)
+    if rnd.random() < 0.2:
+        # layouts like shop/shop/...: a component named like the base module (or starting with "<base>_")
+        base = rnd.choice(["app", "a"])
+        comps = [base] + rnd.sample([c for c in COMPS if c != base], n - 1)
+        if rnd.random() < 0.5:
+            comps.append(base + "_x")
+    return _gen_case(rnd, base, comps)
+
+
+def _gen_case(rnd, BASE, comps):
+    n = len(comps)
     pairs = [(a, b) for a in comps for b in comps if a != b]
     rel = rnd.sample(pairs, rnd.randint(0, min(len(pairs), 6)))
-    mods = ["r", BASE, "r.other", f"{BASE}.by1", f"{BASE}.by2"] + [f"{BASE}.{c}" for c in comps]
+    top = BASE.split(".")[0]
+    mods = sorted({top, BASE, f"{top}.other", f"{BASE}.by1", f"{BASE}.by2"}) + [f"{BASE}.{c}" for c in comps]
     subs = {}
     for c in comps:
         if rnd.random() < 0.5:
@@ -72,14 +85,14 @@ def gen_case(rnd):
             imps.add((member(rnd.choice(comps)), f"{BASE}.by1"))
         elif k == "from-sub":
             c = rnd.choice(comps)
-            imps.add((member(c), "r.other"))
+            imps.add((member(c), f"{top}.other"))
         elif k == "into-bystander-sub":
             imps.add((f"{BASE}.by2", member(rnd.choice(comps))))
         else:
-            imps.add(("r.other", f"{BASE}.by1"))
+            imps.add((f"{top}.other", f"{BASE}.by1"))
         pert.append(k)
     imps = sorted(e for e in imps if e[0] != e[1])
-    return {"comps": comps, "rel": rel, "mods": mods, "imps": imps, "pert": pert}
+    return {"comps": comps, "rel": rel, "mods": mods, "imps": imps, "pert": pert, "base": BASE}
 
 
 def diagram_spec(rnd, comps, rel, prefix=None):
@@ -112,6 +125,7 @@ def evaluate(case, acc, seed_for_forms):
     from pytestarch import DiagramRule
 
     rnd = random.Random(seed_for_forms)
+    BASE = case.get("base", "r.app")
     ev = build(case["mods"], [tuple(i) for i in case["imps"]])
     HUB.case = dict(case, kind="diagram", forms_seed=seed_for_forms)
     short = write_diagram(diagram_spec(rnd, case["comps"], [tuple(r) for r in case["rel"]]), f"s{acc.evaluations}.puml")
@@ -125,6 +139,8 @@ def evaluate(case, acc, seed_for_forms):
         acc.count("twin_pairs")
         if o1 != o2 or (m1 is not None and set(m1.split("\n")) != set(m2.split("\n"))):
             HUB.violation("C07", f"base-module-twin-differs:{'should_only' if mode else 'should'}", "with_base_module(p) on short names differs from fully qualified component names", {"short": [o1, m1], "fq": [o2, m2], "case": case})
+        if BASE != "r.app":
+            acc.count("base_module_named_like_a_component")
         if case["rel"] and case["imps"] and acc.counters["c07_judged"] > before:
             acc.nontrivial({"c": case, "m": mode})
         results[mode] = o1
@@ -158,6 +174,8 @@ def floors(acc, tier):
             for o in ("pass", "fail"):
                 if m.get(f"{mode}:{naming}:{o}", 0) == 0:
                     why.append(f"never observed {mode}:{naming}:{o}")
+    if acc.counters["base_module_named_like_a_component"] < 50:
+        why.append("too few cases with a component named like the base module")
     if acc.counters["c07_judged"] < 1000:
         why.append(f"only {acc.counters['c07_judged']} diagram evaluations judged")
     return why
